@@ -51,11 +51,25 @@ def pick(seq, n, rng):
     return rng.sample(seq, n)
 
 
+_SPREAD_CALLS = [0]
+
+
 def spread(seq, n):
+    """n members of seq, one from each of n consecutive strata, the member within its stratum chosen by a generator
+    seeded with VERIF_SEED (so that different seeds visit different members of the universes, and an evenly spaced
+    pick cannot alias with the product order in which a universe was enumerated)."""
+    import os
+    import random
     seq = list(seq)
     if len(seq) <= n:
         return seq
-    return [seq[(i * len(seq)) // n] for i in range(n)]
+    _SPREAD_CALLS[0] += 1
+    rng = random.Random(f"spread:{os.environ.get('VERIF_SEED', '0')}:{_SPREAD_CALLS[0]}:{len(seq)}:{n}")
+    out = []
+    for i in range(n):
+        lo, hi = (i * len(seq)) // n, ((i + 1) * len(seq)) // n
+        out.append(seq[rng.randrange(lo, max(lo + 1, hi))])
+    return out
 
 
 def random_cyclic(rng, n, m, tries=200):
